@@ -3,6 +3,7 @@ import Percival.Proofs.AFUTop
 import Percival.Proofs.AFUAcct
 import Percival.Proofs.AfStep
 import Percival.Proofs.UpStep
+import Percival.Proofs.AfMonSound
 /-!
 # C14 — allocation failure is reported, leaves objects unchanged and leaks nothing (proof-level part)
 
@@ -579,5 +580,59 @@ theorem exec_up_other (s : UpStep.S) (op : UpStep.Op) :
 /-- a read and a connect with a timeout are started, then `end`: 0 live blocks -/
 example : (UpStep.stepOp (UpStep.stepOp (UpStep.stepOp {} (.start .read 0 0)).1 (.ncStart 0 [.success] (some 5))).1 .end_).2.ans =
     { head := .end_, ntoks := 3, live := some 0, leaked := some 0 } := by decide +kernel
+
+/-! ## Monitor soundness: `pmodel afmon` (`Spec.AfMon.monStep`) raises no false alarm on the model
+
+The monitor judges the *implementation's* answers on ideal objects (multiset of heap elements with keys, ideal
+registry).  The theorems below say that it accepts every answer `Model.AfStep.stepOp` gives (read through
+`Out.ans`, i.e. as `Driver/Afmon.lean` parses the line `Driver/Af.lean` prints — `KAT/AfAns.lean`), so code that
+behaves like the proved model is never reported.  `Proofs.AfMonSound.Rel s ms` relates the two states: the
+monitor's live elements and keys are the model's heap (which satisfies C13's heap invariant), its registry is what
+is registered in the model's event layer, every timer's queue record carries the deadline the monitor remembers,
+and `Mem.live` is exactly the blocks the event layer and the heap hold. -/
+
+open Percival.Proofs.AfMonSound Percival.Proofs.AfMonRel in
+/-- **One line**: from related states, for every op other than `end` (with an immediate priority below 32:
+`OpOk`, asserted by the C), the monitor accepts the model's answer — in particular a `fail` always comes with
+`rf > 0`, `getmin` / `deletemin` answer a least element, EEXIST / ENOENT are answered exactly when the ideal
+registry says so, `events_run` ran exactly the callbacks the ideal registry allows, in an admissible order — and
+the states are related again. -/
+theorem monitor_accepts_model_step (s : AfStep.S) (ms : Spec.AfMon.MState) (op : Spec.AfMon.Op)
+    (hop : op ≠ .end_) (hok : Proofs.AfMonEnd.OpOk op) (h : Rel s ms) :
+    (Spec.AfMon.monStep ms op (AfStep.stepOp s op).2.ans).2 = none ∧
+    Rel (AfStep.stepOp s op).1 (Spec.AfMon.monStep ms op (AfStep.stepOp s op).2.ans).1 :=
+  step_sound s ms op hop hok h
+
+/-- the relation holds initially, and the monitor is not trivial: a `ptrheap_init` that fails without a refused
+request is rejected, a refused one is accepted -/
+example : Proofs.AfMonSound.Rel {} {} := Proofs.AfMonSound.rel_init
+example : (Spec.AfMon.monStep {} .hInit { head := .fail, ntoks := 2, rf := some 0 }).2 ≠ none ∧
+    (Spec.AfMon.monStep {} .hInit { head := .fail, ntoks := 2, rf := some 1 }).2 = none := by decide
+
+open Percival.Proofs.AfMonSound in
+/-- **`end`**: from related states the model's `release_all` leaves no block, so its `end live=0 leaked=0` is accepted. -/
+theorem monitor_accepts_model_end (s : AfStep.S) (ms : Spec.AfMon.MState) (h : Rel s ms) :
+    (Spec.AfMon.monStep ms .end_ (AfStep.stepOp s .end_).2.ans).2 = none ∧ (AfStep.releaseAll s).m.live = 0 :=
+  ⟨end_sound s ms h, Proofs.AfMonEnd.releaseAll_live s h.acct (Proofs.AfMonEnd.side_of_regRel h.reg)⟩
+
+open Percival.Proofs.AfMonSound in
+/-- **Whole cases**: for every sequence of protocol ops in which `end` occurs at most as the last line and every
+`reg_imm` has a priority below 32 (`OpsOk`; both hold for every case the generator or the corpus contains), under
+whatever failure schedules the case sets, the monitor accepts every answer of the model
+(`answered s ops` pairs each op with the model's answer `(stepOp s op).2.ans` along the run). -/
+theorem monitor_accepts_model (ops : List Spec.AfMon.Op) (hok : OpsOk ops) :
+    Spec.AfMon.acceptsRun {} (Proofs.AfMonReg.answered {} ops) = true :=
+  sound ops hok
+
+/-- heap, immediate event, timer, descriptor registration, under `failat 5`, two event-loop passes, `end` -/
+example : Proofs.AfMonSound.OpsOk [.failat 5, .hInit, .hAdd 5 7, .hAdd 3 2, .hMin, .regImm 7 3, .regTm 8 100,
+    .regNet 2 4 false, .regNet 9 4 false, .hDelmin, .run, .clock 1000, .run, .cancelNet 4 false, .end_] := by
+  refine ⟨by simp [Proofs.AfMonSound.EndLast], fun op hop => ?_⟩
+  simp only [List.mem_cons, List.mem_nil_iff, or_false] at hop
+  rcases hop with rfl | rfl | rfl | rfl | rfl | rfl | rfl | rfl | rfl | rfl | rfl | rfl | rfl | rfl | rfl <;>
+    simp [Proofs.AfMonEnd.OpOk]
+
+/-- without `OpOk` the statement is false: `reg_imm 0 40` registers nothing, is answered `ok`, and keeps two blocks -/
+example : Spec.AfMon.acceptsRun {} (Proofs.AfMonReg.answered {} [.regImm 0 40, .end_]) = false := by decide +kernel
 
 end Percival.C14
